@@ -1,83 +1,75 @@
-//! The dynamic view interpreter: term -> `Box<dyn TensorMut<i64, D>>` through the real constructors.
+//! The dynamic view interpreter: term -> type-erased view through the real constructors.
+//! Element type E = (i64, usize) so that RecordTensor (a TensorRef over (T, Index)) can take part;
+//! the i64 identifies the element (leaf*1000 + offset), the usize is always 0.
+//! Two families of erased views (c02/family.rs, included twice):
+//!   fam_mut: `Box<dyn TensorMut<E, D>>` over `&'static mut` leaves,
+//!   fam_ref: `Box<dyn TensorRef<E, D>>`, entered through a shared reference `&S` (wrapper kind 4).
 use crate::guarded;
 use crate::sx::*;
 use easy_ml::interop::TensorRefMatrix;
 use easy_ml::matrices::Matrix;
-use easy_ml::tensors::indexing::{TensorAccess, TensorTranspose};
 use easy_ml::tensors::views::{
-    IndexRange, IndexRangeValidationError, StrictIndexRangeValidationError, TensorChain,
-    TensorExpansion, TensorIndex, TensorMask, TensorMut, TensorRange, TensorRename, TensorReverse,
-    TensorStack,
+    IndexRange, IndexRangeValidationError, StrictIndexRangeValidationError, TensorRef,
 };
 use easy_ml::tensors::{InvalidDimensionsError, InvalidShapeError, Tensor};
 
-pub type Dyn<const D: usize> = Box<dyn TensorMut<i64, D>>;
+pub type E = (i64, usize);
 
-pub enum DynView {
-    D0(Dyn<0>),
-    D1(Dyn<1>),
-    D2(Dyn<2>),
-    D3(Dyn<3>),
-    D4(Dyn<4>),
-    D5(Dyn<5>),
-    D6(Dyn<6>),
-}
-
-impl DynView {
-    pub fn dims(&self) -> usize {
-        match self {
-            DynView::D0(_) => 0,
-            DynView::D1(_) => 1,
-            DynView::D2(_) => 2,
-            DynView::D3(_) => 3,
-            DynView::D4(_) => 4,
-            DynView::D5(_) => 5,
-            DynView::D6(_) => 6,
-        }
-    }
-}
-
-/// pack / unpack between the enum and a statically known dimensionality
-pub trait Dim<const D: usize> {
-    fn pack(b: Dyn<D>) -> DynView;
-    fn unpack(v: DynView) -> Option<Dyn<D>>;
-}
-pub struct K;
-macro_rules! dim_impl {
-    ($($d:literal $V:ident),*) => {$(
-        impl Dim<$d> for K {
-            fn pack(b: Dyn<$d>) -> DynView { DynView::$V(b) }
-            fn unpack(v: DynView) -> Option<Dyn<$d>> { match v { DynView::$V(b) => Some(b), _ => None } }
-        }
-    )*};
-}
-dim_impl!(0 D0, 1 D1, 2 D2, 3 D3, 4 D4, 5 D5, 6 D6);
-
-/// dispatch a generic function over the dimensionality held by a DynView
-macro_rules! each_d {
-    ($v:expr, $f:ident ( $($arg:expr),* )) => {
-        match $v {
-            DynView::D0(x) => $f::<0>(x, $($arg),*),
-            DynView::D1(x) => $f::<1>(x, $($arg),*),
-            DynView::D2(x) => $f::<2>(x, $($arg),*),
-            DynView::D3(x) => $f::<3>(x, $($arg),*),
-            DynView::D4(x) => $f::<4>(x, $($arg),*),
-            DynView::D5(x) => $f::<5>(x, $($arg),*),
-            DynView::D6(x) => $f::<6>(x, $($arg),*),
-        }
+macro_rules! family_imports {
+    () => {
+        use super::{e_access, e_irv, e_shape, e_strict, index_range, params, Params, E};
+        use crate::guarded;
+        use crate::sx::*;
+        use easy_ml::differentiation::RecordTensor;
+        use easy_ml::tensors::indexing::{TensorAccess, TensorTranspose};
+        use easy_ml::tensors::views::{
+            IndexRange, TensorChain, TensorExpansion, TensorIndex, TensorMask, TensorRange,
+            TensorRename, TensorReverse, TensorStack, TensorView,
+        };
     };
+}
+pub mod fam_mut {
+    family_imports!();
+    use easy_ml::tensors::views::TensorMut as Tr;
+    include!("family.rs");
+}
+pub mod fam_ref {
+    family_imports!();
+    use easy_ml::tensors::views::TensorRef as Tr;
+    include!("family.rs");
+}
+
+pub enum AnyView {
+    M(fam_mut::DynView),
+    R(fam_ref::DynView),
+}
+
+/// wrapper kind 4: a shared reference `&S` as the source (leaked: the case is short lived)
+fn share_mut(v: fam_mut::DynView) -> fam_ref::DynView {
+    macro_rules! go { ($($V:ident),*) => { match v { $(fam_mut::DynView::$V(b) => {
+        let r: &'static fam_mut::Dyn<_> = Box::leak(Box::new(b));
+        fam_ref::DynView::$V(Box::new(r))
+    })* } } }
+    go!(D0, D1, D2, D3, D4, D5, D6)
+}
+fn share_ref(v: fam_ref::DynView) -> fam_ref::DynView {
+    macro_rules! go { ($($V:ident),*) => { match v { $(fam_ref::DynView::$V(b) => {
+        let r: &'static fam_ref::Dyn<_> = Box::leak(Box::new(b));
+        fam_ref::DynView::$V(Box::new(r))
+    })* } } }
+    go!(D0, D1, D2, D3, D4, D5, D6)
 }
 
 // ---------------------------------------------------------------- leaves
 enum Leaf {
-    T0(*mut Tensor<i64, 0>),
-    T1(*mut Tensor<i64, 1>),
-    T2(*mut Tensor<i64, 2>),
-    T3(*mut Tensor<i64, 3>),
-    T4(*mut Tensor<i64, 4>),
-    T5(*mut Tensor<i64, 5>),
-    T6(*mut Tensor<i64, 6>),
-    M(*mut Matrix<i64>),
+    T0(*mut Tensor<E, 0>),
+    T1(*mut Tensor<E, 1>),
+    T2(*mut Tensor<E, 2>),
+    T3(*mut Tensor<E, 3>),
+    T4(*mut Tensor<E, 4>),
+    T5(*mut Tensor<E, 5>),
+    T6(*mut Tensor<E, 6>),
+    M(*mut Matrix<E>),
 }
 
 /// Owns the leaf tensors; the view under test holds `&'static mut` borrows into them, which are
@@ -95,7 +87,7 @@ impl Arena {
             .leaves
             .iter()
             .map(|leaf| unsafe {
-                let values: Vec<i64> = match leaf {
+                let values: Vec<E> = match leaf {
                     Leaf::T0(p) => (**p).iter().collect(),
                     Leaf::T1(p) => (**p).iter().collect(),
                     Leaf::T2(p) => (**p).iter().collect(),
@@ -105,7 +97,7 @@ impl Arena {
                     Leaf::T6(p) => (**p).iter().collect(),
                     Leaf::M(p) => (**p).row_major_iter().collect(),
                 };
-                l(values.into_iter().map(z).collect())
+                l(values.into_iter().map(|x| z(x.0)).collect())
             })
             .collect())
     }
@@ -139,14 +131,14 @@ macro_rules! leaf_case {
                     Some(e) if e <= 100_000 => e,
                     _ => return Err(bad_case()),
                 };
-                let data: Vec<i64> = (0..elements as i64).map(|k| $id * 1000 + k).collect();
+                let data: Vec<E> = (0..elements as i64).map(|k| ($id * 1000 + k, 0usize)).collect();
                 match Tensor::try_from(shape, data) {
                     Err(e) => Err(err(e_shape(&e))),
                     Ok(t) => {
                         let p = Box::into_raw(Box::new(t));
                         $arena.leaves.push(Leaf::$L(p));
-                        let r: &'static mut Tensor<i64, $d> = unsafe { &mut *p };
-                        Ok(DynView::$V(Box::new(r)))
+                        let r: &'static mut Tensor<E, $d> = unsafe { &mut *p };
+                        Ok(AnyView::M(fam_mut::DynView::$V(Box::new(r))))
                     }
                 }
             })*
@@ -177,7 +169,7 @@ fn range_sx(r: &IndexRange) -> Sx {
     };
     l(vec![z(num_after("start: ")), z(num_after("length: "))])
 }
-fn e_irv<const D: usize, const P: usize>(e: &IndexRangeValidationError<D, P>) -> Sx {
+pub fn e_irv<const D: usize, const P: usize>(e: &IndexRangeValidationError<D, P>) -> Sx {
     match e {
         IndexRangeValidationError::InvalidShape(s) => l(vec![z(3), e_shape(s)]),
         IndexRangeValidationError::InvalidDimensions(d) => l(vec![z(4), e_dims(d)]),
@@ -263,361 +255,27 @@ pub fn index_range(start: usize, len: usize, salt: usize) -> IndexRange {
     }
 }
 
-macro_rules! named_case {
-    ($Adaptor:ident, $src:expr, $strict:expr, $named:expr, $D:ident; $($p:literal),*) => {
-        match $named.len() {
-            $($p => {
-                let arr: [(&'static str, IndexRange); $p] =
-                    std::array::from_fn(|k| (dim($named[k].0), index_range($named[k].1, $named[k].2, k)));
-                if $strict {
-                    match guarded(|| $Adaptor::from_strict($src, arr)) {
-                        None => Err(panicked()),
-                        Some(Err(e)) => Err(err(e_strict(&e))),
-                        Some(Ok(v)) => Ok(Box::new(v) as Dyn<$D>),
-                    }
-                } else {
-                    match guarded(|| $Adaptor::from($src, arr)) {
-                        None => Err(panicked()),
-                        Some(Err(e)) => Err(err(e_irv(&e))),
-                        Some(Ok(v)) => Ok(Box::new(v) as Dyn<$D>),
-                    }
-                }
-            })*
-            _ => Err(bad_case()),
-        }
-    };
-}
-
-macro_rules! ranged_fn {
-    ($name:ident, $Adaptor:ident) => {
-        fn $name<const D: usize>(src: Dyn<D>, p: &Params) -> Result<DynView, Sx>
-        where
-            K: Dim<D>,
-        {
-            let out: Result<Dyn<D>, Sx> = match p {
-                Params::All(strict, all) => {
-                    if all.len() != D {
-                        return Err(bad_case());
-                    }
-                    let arr: [Option<IndexRange>; D] =
-                        std::array::from_fn(|d| all[d].map(|(s, n)| index_range(s, n, d)));
-                    if *strict {
-                        match guarded(|| $Adaptor::from_all_strict(src, arr)) {
-                            None => Err(panicked()),
-                            Some(Err(e)) => Err(err(e_strict(&e))),
-                            Some(Ok(v)) => Ok(Box::new(v) as Dyn<D>),
-                        }
-                    } else {
-                        match guarded(|| $Adaptor::from_all(src, arr)) {
-                            None => Err(panicked()),
-                            Some(Err(e)) => Err(err(e_shape(&e))),
-                            Some(Ok(v)) => Ok(Box::new(v) as Dyn<D>),
-                        }
-                    }
-                }
-                Params::Named(strict, named) => {
-                    named_case!($Adaptor, src, *strict, named, D; 0, 1, 2, 3, 4, 5, 6, 7)
-                }
-            };
-            out.map(<K as Dim<D>>::pack)
-        }
-    };
-}
-ranged_fn!(apply_range, TensorRange);
-ranged_fn!(apply_mask, TensorMask);
-
-fn apply_rename<const D: usize>(src: Dyn<D>, names: &[usize]) -> Result<DynView, Sx>
-where
-    K: Dim<D>,
-{
-    if names.len() != D {
-        return Err(bad_case());
-    }
-    let names: [&'static str; D] = names_arr(names);
-    match guarded(|| TensorRename::from(src, names)) {
-        None => Err(panicked()),
-        Some(v) => {
-            if v.get_names() != &names {
-                return Err(inconsistent(260));
-            }
-            Ok(<K as Dim<D>>::pack(Box::new(v)))
-        }
-    }
-}
-
-fn apply_reverse<const D: usize>(src: Dyn<D>, names: &[usize]) -> Result<DynView, Sx>
-where
-    K: Dim<D>,
-{
-    let names: Vec<&'static str> = names.iter().map(|n| dim(*n)).collect();
-    match guarded(|| TensorReverse::from(src, &names)) {
-        None => Err(panicked()),
-        Some(v) => Ok(<K as Dim<D>>::pack(Box::new(v))),
-    }
-}
 
 pub fn e_access<const D: usize>(e: &easy_ml::tensors::indexing::InvalidDimensionsError<D>) -> Sx {
     l(vec![z(6), shape_sx(&e.actual), names_sx(&e.requested)])
 }
 
-fn apply_access<const D: usize>(src: Dyn<D>, names: &[usize]) -> Result<DynView, Sx>
-where
-    K: Dim<D>,
-{
-    if names.len() != D {
-        return Err(bad_case());
-    }
-    let names: [&'static str; D] = names_arr(names);
-    // the panicking constructor must reject exactly when try_from does
-    let would_panic = guarded(|| {
-        TensorAccess::from(&src, names);
-    })
-    .is_none();
-    match TensorAccess::try_from(src, names) {
-        Err(e) => {
-            if !would_panic {
-                return Err(inconsistent(261));
-            }
-            Err(err(e_access(&e)))
-        }
-        Ok(v) => {
-            if would_panic {
-                return Err(inconsistent(262));
-            }
-            Ok(<K as Dim<D>>::pack(Box::new(v)))
-        }
-    }
-}
 
-fn apply_transpose<const D: usize>(src: Dyn<D>, names: &[usize]) -> Result<DynView, Sx>
-where
-    K: Dim<D>,
-{
-    if names.len() != D {
-        return Err(bad_case());
-    }
-    let names: [&'static str; D] = names_arr(names);
-    let would_panic = guarded(|| {
-        TensorTranspose::from(&src, names);
-    })
-    .is_none();
-    match TensorTranspose::try_from(src, names) {
-        Err(e) => {
-            if !would_panic {
-                return Err(inconsistent(263));
-            }
-            Err(err(e_access(&e)))
-        }
-        Ok(v) => {
-            if would_panic {
-                return Err(inconsistent(264));
-            }
-            Ok(<K as Dim<D>>::pack(Box::new(v)))
-        }
-    }
-}
-
-fn apply_wrap<const D: usize>(src: Dyn<D>, kind: i64) -> Result<DynView, Sx>
-where
-    K: Dim<D>,
-{
-    let out: Dyn<D> = match kind {
-        // Box<S> with S = Box<dyn TensorMut>
-        0 => Box::new(Box::new(src)),
-        // &mut S (leaked: the case is short lived)
-        1 => {
-            let r: &'static mut Dyn<D> = Box::leak(Box::new(src));
-            Box::new(r)
-        }
-        // Box<dyn TensorMut> used as a source again
-        2 => Box::new(src),
-        _ => return Err(bad_case()),
-    };
-    Ok(<K as Dim<D>>::pack(out))
-}
-
-macro_rules! index_case {
-    ($src:expr, $ps:expr; $( ($Vin:ident, $d:literal, $i:literal, $Vout:ident) ),*) => {
-        match ($src, $ps.len()) {
-            $( (DynView::$Vin(x), $i) => {
-                let arr: [(&'static str, usize); $i] = std::array::from_fn(|k| (dim($ps[k].0), $ps[k].1));
-                match guarded(|| TensorIndex::<i64, _, $d, $i>::from(x, arr)) {
-                    None => Err(panicked()),
-                    Some(v) => Ok(DynView::$Vout(Box::new(v))),
-                }
-            } )*
-            _ => Err(bad_case()),
-        }
-    };
-}
-
-fn apply_index(src: DynView, ps: &[(usize, usize)]) -> Result<DynView, Sx> {
-    index_case!(src, ps;
-        (D1, 1, 1, D0),
-        (D2, 2, 1, D1), (D2, 2, 2, D0),
-        (D3, 3, 1, D2), (D3, 3, 2, D1), (D3, 3, 3, D0),
-        (D4, 4, 1, D3), (D4, 4, 2, D2), (D4, 4, 3, D1), (D4, 4, 4, D0),
-        (D5, 5, 1, D4), (D5, 5, 2, D3), (D5, 5, 3, D2), (D5, 5, 4, D1), (D5, 5, 5, D0),
-        (D6, 6, 1, D5), (D6, 6, 2, D4), (D6, 6, 3, D3), (D6, 6, 4, D2), (D6, 6, 5, D1), (D6, 6, 6, D0))
-}
-
-macro_rules! expand_case {
-    ($src:expr, $es:expr; $( ($Vin:ident, $d:literal, $i:literal, $Vout:ident) ),*) => {
-        match ($src, $es.len()) {
-            $( (DynView::$Vin(x), $i) => {
-                let arr: [(usize, &'static str); $i] = std::array::from_fn(|k| ($es[k].0, dim($es[k].1)));
-                match guarded(|| TensorExpansion::<i64, _, $d, $i>::from(x, arr)) {
-                    None => Err(panicked()),
-                    Some(v) => Ok(DynView::$Vout(Box::new(v))),
-                }
-            } )*
-            _ => Err(bad_case()),
-        }
-    };
-}
-
-fn apply_expand(src: DynView, es: &[(usize, usize)]) -> Result<DynView, Sx> {
-    expand_case!(src, es;
-        (D0, 0, 1, D1), (D0, 0, 2, D2), (D0, 0, 3, D3), (D0, 0, 4, D4), (D0, 0, 5, D5), (D0, 0, 6, D6),
-        (D1, 1, 1, D2), (D1, 1, 2, D3), (D1, 1, 3, D4), (D1, 1, 4, D5), (D1, 1, 5, D6),
-        (D2, 2, 1, D3), (D2, 2, 2, D4), (D2, 2, 3, D5), (D2, 2, 4, D6),
-        (D3, 3, 1, D4), (D3, 3, 2, D5), (D3, 3, 3, D6),
-        (D4, 4, 1, D5), (D4, 4, 2, D6),
-        (D5, 5, 1, D6))
-}
-
-fn unpack_all<const D: usize>(vs: Vec<DynView>) -> Option<Vec<Dyn<D>>>
-where
-    K: Dim<D>,
-{
-    vs.into_iter().map(<K as Dim<D>>::unpack).collect()
-}
-
-fn to_array<T, const N: usize>(v: Vec<T>) -> [T; N] {
-    match v.try_into() {
-        Ok(a) => a,
-        Err(_) => panic!("harness: source count"),
-    }
-}
-
-macro_rules! stack_case {
-    ($srcs:expr, $along:expr, $kind:expr; $( ($d:literal, $Vout:ident) ),*) => {
-        match $srcs[0].dims() {
-            $( $d => {
-                let Some(mut v) = unpack_all::<$d>($srcs) else { return Err(bad_case()) };
-                let along = $along;
-                let built: Option<Dyn<{ $d + 1 }>> = match ($kind, v.len()) {
-                    (0, 1) => guarded(|| Box::new(TensorStack::<i64, [Dyn<$d>; 1], $d>::from(to_array(v), along)) as Dyn<{ $d + 1 }>),
-                    (0, 2) => guarded(|| Box::new(TensorStack::<i64, [Dyn<$d>; 2], $d>::from(to_array(v), along)) as Dyn<{ $d + 1 }>),
-                    (0, 3) => guarded(|| Box::new(TensorStack::<i64, [Dyn<$d>; 3], $d>::from(to_array(v), along)) as Dyn<{ $d + 1 }>),
-                    (0, 4) => guarded(|| Box::new(TensorStack::<i64, [Dyn<$d>; 4], $d>::from(to_array(v), along)) as Dyn<{ $d + 1 }>),
-                    (0, 5) => guarded(|| Box::new(TensorStack::<i64, [Dyn<$d>; 5], $d>::from(to_array(v), along)) as Dyn<{ $d + 1 }>),
-                    (1, 2) => {
-                        let b = v.pop().unwrap();
-                        let a = v.pop().unwrap();
-                        guarded(|| Box::new(TensorStack::<i64, (Dyn<$d>, Dyn<$d>), $d>::from((a, b), along)) as Dyn<{ $d + 1 }>)
-                    }
-                    (1, 3) => {
-                        let c = v.pop().unwrap();
-                        let b = v.pop().unwrap();
-                        let a = v.pop().unwrap();
-                        guarded(|| Box::new(TensorStack::<i64, (Dyn<$d>, Dyn<$d>, Dyn<$d>), $d>::from((a, b, c), along)) as Dyn<{ $d + 1 }>)
-                    }
-                    (1, 4) => {
-                        let e = v.pop().unwrap();
-                        let c = v.pop().unwrap();
-                        let b = v.pop().unwrap();
-                        let a = v.pop().unwrap();
-                        guarded(|| Box::new(TensorStack::<i64, (Dyn<$d>, Dyn<$d>, Dyn<$d>, Dyn<$d>), $d>::from((a, b, c, e), along)) as Dyn<{ $d + 1 }>)
-                    }
-                    _ => return Err(bad_case()),
-                };
-                match built {
-                    None => Err(panicked()),
-                    Some(b) => Ok(DynView::$Vout(b)),
-                }
-            } )*
-            _ => Err(bad_case()),
-        }
-    };
-}
-
-fn apply_stack(srcs: Vec<DynView>, pos: usize, name: usize, kind: i64) -> Result<DynView, Sx> {
-    if srcs.is_empty() {
-        return Err(bad_case());
-    }
-    stack_case!(srcs, (pos, dim(name)), kind; (0, D1), (1, D2), (2, D3), (3, D4), (4, D5), (5, D6))
-}
-
-fn chain_d<const D: usize>(srcs: Vec<DynView>, along: &'static str, kind: i64) -> Result<DynView, Sx>
-where
-    K: Dim<D>,
-{
-    let Some(mut v) = unpack_all::<D>(srcs) else { return Err(bad_case()) };
-    let built: Option<Dyn<D>> = match (kind, v.len()) {
-        (0, 1) => guarded(|| Box::new(TensorChain::<i64, [Dyn<D>; 1], D>::from(to_array(v), along)) as Dyn<D>),
-        (0, 2) => guarded(|| Box::new(TensorChain::<i64, [Dyn<D>; 2], D>::from(to_array(v), along)) as Dyn<D>),
-        (0, 3) => guarded(|| Box::new(TensorChain::<i64, [Dyn<D>; 3], D>::from(to_array(v), along)) as Dyn<D>),
-        (0, 4) => guarded(|| Box::new(TensorChain::<i64, [Dyn<D>; 4], D>::from(to_array(v), along)) as Dyn<D>),
-        (0, 5) => guarded(|| Box::new(TensorChain::<i64, [Dyn<D>; 5], D>::from(to_array(v), along)) as Dyn<D>),
-        (1, 2) => {
-            let b = v.pop().unwrap();
-            let a = v.pop().unwrap();
-            guarded(|| Box::new(TensorChain::<i64, (Dyn<D>, Dyn<D>), D>::from((a, b), along)) as Dyn<D>)
-        }
-        (1, 3) => {
-            let c = v.pop().unwrap();
-            let b = v.pop().unwrap();
-            let a = v.pop().unwrap();
-            guarded(|| Box::new(TensorChain::<i64, (Dyn<D>, Dyn<D>, Dyn<D>), D>::from((a, b, c), along)) as Dyn<D>)
-        }
-        (1, 4) => {
-            let e = v.pop().unwrap();
-            let c = v.pop().unwrap();
-            let b = v.pop().unwrap();
-            let a = v.pop().unwrap();
-            guarded(|| Box::new(TensorChain::<i64, (Dyn<D>, Dyn<D>, Dyn<D>, Dyn<D>), D>::from((a, b, c, e), along)) as Dyn<D>)
-        }
-        _ => return Err(bad_case()),
-    };
-    match built {
-        None => Err(panicked()),
-        Some(b) => Ok(<K as Dim<D>>::pack(b)),
-    }
-}
-
-fn apply_chain(srcs: Vec<DynView>, name: usize, kind: i64) -> Result<DynView, Sx> {
-    if srcs.is_empty() {
-        return Err(bad_case());
-    }
-    let along = dim(name);
-    match srcs[0].dims() {
-        0 => chain_d::<0>(srcs, along, kind),
-        1 => chain_d::<1>(srcs, along, kind),
-        2 => chain_d::<2>(srcs, along, kind),
-        3 => chain_d::<3>(srcs, along, kind),
-        4 => chain_d::<4>(srcs, along, kind),
-        5 => chain_d::<5>(srcs, along, kind),
-        6 => chain_d::<6>(srcs, along, kind),
-        _ => Err(bad_case()),
-    }
-}
-
-fn matrix_leaf(arena: &mut Arena, id: i64, rows: usize, cols: usize, n0: usize, n1: usize) -> Result<DynView, Sx> {
+fn matrix_leaf(arena: &mut Arena, id: i64, rows: usize, cols: usize, n0: usize, n1: usize) -> Result<AnyView, Sx> {
     let Some(elements) = rows.checked_mul(cols) else { return Err(bad_case()) };
     if elements > 100_000 {
         return Err(bad_case());
     }
-    let data: Vec<i64> = (0..elements as i64).map(|k| id * 1000 + k).collect();
+    let data: Vec<E> = (0..elements as i64).map(|k| (id * 1000 + k, 0usize)).collect();
     let Some(m) = guarded(|| Matrix::from_flat_row_major((rows, cols), data)) else {
         return Err(panicked());
     };
     let p = Box::into_raw(Box::new(m));
     arena.leaves.push(Leaf::M(p));
-    let r: &'static mut Matrix<i64> = unsafe { &mut *p };
+    let r: &'static mut Matrix<E> = unsafe { &mut *p };
     match TensorRefMatrix::with_names(r, [dim(n0), dim(n1)]) {
         Err(e) => Err(err(e_shape(&e))),
-        Ok(v) => Ok(DynView::D2(Box::new(v))),
+        Ok(v) => Ok(AnyView::M(fam_mut::DynView::D2(Box::new(v)))),
     }
 }
 
@@ -642,8 +300,9 @@ pub fn leaf_ids(t: &Sx, out: &mut Vec<i64>) -> bool {
     }
 }
 
+
 /// Err(result line) on the first failing constructor (or a line outside the case language)
-pub fn build(t: &Sx, arena: &mut Arena) -> Result<DynView, Sx> {
+pub fn build(t: &Sx, arena: &mut Arena) -> Result<AnyView, Sx> {
     let v = t.list().ok_or_else(bad_case)?;
     let tag = v.first().and_then(|x| x.i64()).ok_or_else(bad_case)?;
     match (tag, v.len()) {
@@ -657,71 +316,51 @@ pub fn build(t: &Sx, arena: &mut Arena) -> Result<DynView, Sx> {
             let n: Vec<usize> = v[2..6].iter().map(|x| x.usize()).collect::<Option<_>>().ok_or_else(bad_case)?;
             matrix_leaf(arena, id, n[0], n[1], n[2], n[3])
         }
-        (1, 3) => {
-            let p = params(&v[2]).ok_or_else(bad_case)?;
-            let src = build(&v[1], arena)?;
-            each_d!(src, apply_range(&p))
+        (11, 3) if v[2].i64() == Some(4) => {
+            // a shared reference as the source: everything above it is read-only
+            Ok(AnyView::R(match build(&v[1], arena)? {
+                AnyView::M(m) => share_mut(m),
+                AnyView::R(r) => share_ref(r),
+            }))
         }
-        (2, 3) => {
-            let p = params(&v[2]).ok_or_else(bad_case)?;
-            let src = build(&v[1], arena)?;
-            each_d!(src, apply_mask(&p))
-        }
-        (3, 3) => {
-            let ps = v[2].pairs_usize().ok_or_else(bad_case)?;
-            let src = build(&v[1], arena)?;
-            apply_index(src, &ps)
-        }
-        (4, 3) => {
-            let es = v[2].pairs_usize().ok_or_else(bad_case)?;
-            let src = build(&v[1], arena)?;
-            apply_expand(src, &es)
-        }
-        (5, 3) => {
-            let names = v[2].usizes().ok_or_else(bad_case)?;
-            let src = build(&v[1], arena)?;
-            each_d!(src, apply_rename(&names))
-        }
-        (6, 3) => {
-            let names = v[2].usizes().ok_or_else(bad_case)?;
-            let src = build(&v[1], arena)?;
-            each_d!(src, apply_reverse(&names))
-        }
-        (7, 3) => {
-            let names = v[2].usizes().ok_or_else(bad_case)?;
-            let src = build(&v[1], arena)?;
-            each_d!(src, apply_access(&names))
-        }
-        (8, 3) => {
-            let names = v[2].usizes().ok_or_else(bad_case)?;
-            let src = build(&v[1], arena)?;
-            each_d!(src, apply_transpose(&names))
-        }
-        (9, 5) => {
+        (1..=8, 3) | (11, 3) => match build(&v[1], arena)? {
+            AnyView::M(m) => fam_mut::apply_unary(m, v).map(AnyView::M),
+            AnyView::R(r) => fam_ref::apply_unary(r, v).map(AnyView::R),
+        },
+        (9, 5) | (10, 4) => {
             let ts = v[1].list().ok_or_else(bad_case)?;
-            let pos = v[2].usize().ok_or_else(bad_case)?;
-            let name = v[3].usize().ok_or_else(bad_case)?;
-            let kind = v[4].i64().ok_or_else(bad_case)?;
-            let mut srcs = vec![];
-            for t in ts {
-                srcs.push(build(t, arena)?);
+            let (pos, name, kind) = if tag == 9 {
+                (v[2].usize().ok_or_else(bad_case)?, v[3].usize().ok_or_else(bad_case)?, v[4].i64().ok_or_else(bad_case)?)
+            } else {
+                (0, v[2].usize().ok_or_else(bad_case)?, v[3].i64().ok_or_else(bad_case)?)
+            };
+            if ts.is_empty() {
+                // only arrays can be empty; the constructors must refuse for every dimensionality
+                if kind != 0 {
+                    return Err(bad_case());
+                }
+                return if fam_mut::empty_sources_panic(tag == 9, pos, name) && fam_ref::empty_sources_panic(tag == 9, pos, name) {
+                    Err(panicked())
+                } else {
+                    Err(inconsistent(265))
+                };
             }
-            apply_stack(srcs, pos, name, kind)
-        }
-        (10, 4) => {
-            let ts = v[1].list().ok_or_else(bad_case)?;
-            let name = v[2].usize().ok_or_else(bad_case)?;
-            let kind = v[3].i64().ok_or_else(bad_case)?;
-            let mut srcs = vec![];
+            let mut ms = vec![];
+            let mut rs = vec![];
             for t in ts {
-                srcs.push(build(t, arena)?);
+                match build(t, arena)? {
+                    AnyView::M(m) => ms.push(m),
+                    AnyView::R(r) => rs.push(r),
+                }
             }
-            apply_chain(srcs, name, kind)
-        }
-        (11, 3) => {
-            let kind = v[2].i64().ok_or_else(bad_case)?;
-            let src = build(&v[1], arena)?;
-            each_d!(src, apply_wrap(kind))
+            if !ms.is_empty() && !rs.is_empty() {
+                return Err(bad_case()); // mixed families cannot share one array / tuple element type here
+            }
+            if rs.is_empty() {
+                if tag == 9 { fam_mut::apply_stack(ms, pos, name, kind) } else { fam_mut::apply_chain(ms, name, kind) }.map(AnyView::M)
+            } else {
+                if tag == 9 { fam_ref::apply_stack(rs, pos, name, kind) } else { fam_ref::apply_chain(rs, name, kind) }.map(AnyView::R)
+            }
         }
         _ => Err(bad_case()),
     }
